@@ -40,6 +40,13 @@ func (cl *Cluster) NewClient(name string) *Client {
 	c := &Client{Name: name, cl: cl, AutoAck: true, nextID: 1}
 	c.Conn = NewConn(name, &cl.Clock, &cl.activity)
 	cl.Clients = append(cl.Clients, c)
+	// a broker write that stops in the middle of a packet: the client says something that needs
+	// an answer (PINGREQ) right then, see Conn.onPartial
+	c.Conn.OnPartialWrite(func() {
+		if c.Accepted {
+			c.Send(EncPingReq())
+		}
+	})
 	return c
 }
 
